@@ -15,14 +15,31 @@ func deepCopy(m gen.M) gen.M {
 	return r
 }
 
+// cpFunCases: every input enumerated by CuttingPlanes.tla (constraint, pivot, assignment; pairs of
+// constraints) and SimplifyLearned.tla (constraints) goes through the real roundToOne / clash /
+// SimplifyPB; the results are compared with the functions of CPOps.tla by CPTrace.tla.
+func cpFunCases(env *core.Env, emitted []core.Case) []core.Case {
+	var res []core.Case
+	for _, e := range emitted {
+		ev := gen.M{}
+		for k, v := range e {
+			ev[k] = v
+		}
+		res = append(res, gen.M{"drv": "cpfun", "tm": "CPTrace", "ev": []gen.M{ev}})
+	}
+	return res
+}
+
 func init() {
 	// C14 — the cutting-planes strategy never changes an answer
 	register(&core.Check{
 		ID:      "C14",
 		Amplify: amplifyAPI,
 		Designs: []core.Design{
-			{Name: "cuttingplanes", Module: "CuttingPlanes", Cfg: "CuttingPlanes_quick.cfg", Tier: "quick", Workers: 8, XmxMB: 6000, Timeout: 10 * time.Minute},
-			{Name: "cuttingplanes", Module: "CuttingPlanes", Cfg: "CuttingPlanes_thorough.cfg", Tier: "thorough", Workers: 16, XmxMB: 12000, Timeout: 30 * time.Minute},
+			{Name: "cuttingplanes", Module: "CuttingPlanes", Cfg: "CuttingPlanes_quick.cfg", Tier: "quick", Workers: 8, XmxMB: 6000, Timeout: 10 * time.Minute, ToCases: cpFunCases},
+			{Name: "cuttingplanes", Module: "CuttingPlanes", Cfg: "CuttingPlanes_thorough.cfg", Tier: "thorough", Workers: 16, XmxMB: 12000, Timeout: 30 * time.Minute, ToCases: cpFunCases},
+			{Name: "simplify-learned", Module: "SimplifyLearned", Cfg: "SimplifyLearned_keep.cfg", Workers: 4, XmxMB: 4000, Timeout: 10 * time.Minute, ToCases: cpFunCases},
+			{Name: "simplify-learned-rest-dropped", Module: "SimplifyLearned", Cfg: "SimplifyLearned_drop.cfg", Workers: 2, XmxMB: 2000, Timeout: 10 * time.Minute, ExpectViolation: "NothingLost"},
 			{Name: "cuttingplanes-ceil", Module: "CuttingPlanes", Cfg: "CuttingPlanes_ceil.cfg", Workers: 2, XmxMB: 4000, Timeout: 10 * time.Minute, ExpectViolation: "RoundSound"},
 		},
 		TraceModule: "APITrace",
@@ -84,6 +101,12 @@ func init() {
 			return res
 		},
 		Cover: func(t core.Case, cov map[string]int) bool {
+			if s(t, "drv") == "cpfun" {
+				for _, e := range evs(t) {
+					cov["cpfun."+s(e, "op")]++
+				}
+				return true
+			}
 			_, _, confl := coverAPI(t, cov)
 			cfg, _ := t["cfg"].(map[string]any)
 			if b(cfg, "cp") {
@@ -107,6 +130,6 @@ func init() {
 			return false
 		},
 		Rule:    "cases: each problem (CNF, cardinality, PB with coefficients <=4, with / without cost function, n<=7; with / without prior DetectAtMostOne; restart / reduce knobs) is run twice, strategy off and on, through Solve / Optimal / Minimize; both runs are validated against the meaning of the problem (same verdict and same optimum follow), and every constraint the cutting-planes analysis learns (hook event learn-pb) must be entailed; non-trivial = the cutting-planes run had at least one conflict",
-		Require: []string{"cfg.cp", "cp.learned", "op.optimal", "op.minimize", "op.solve", "op.amo"},
+		Require: []string{"cfg.cp", "cp.learned", "op.optimal", "op.minimize", "op.solve", "op.amo", "cpfun.round", "cpfun.clash", "cpfun.split"},
 	})
 }
